@@ -340,6 +340,22 @@ def mon_c17(c):
     ge = parse_edges(c.obs['GE'])
     if ge != e:
         return 'GraphInfo edges %s differ from graph edges %s' % (ge, e)
+    if 'GY' in c.obs:
+        # the serialised text must denote exactly this value (independent writer; a text that loses or alters
+        # information can still read back "equal" when reader and writer err alike)
+        names = {'L': 'Logic', 'C': 'Contains', 'D': 'Data'}
+        gn = parse_list(c.obs['GN'], ' ')
+        want = ['graph:', '  nodes:' + ('' if gn else ' []')] + ['  - %d' % w for w in gn]
+        want += ['  node_holes: []', '  edge_property: directed', '  edges:' + ('' if ge else ' []')]
+        for (a, b, k) in ge:
+            want += ['  - - %d' % a, '    - %d' % b, '    - %s' % names[k]]
+        got = c.obs['GY'].split('|')
+        if got and got[-1] == '':
+            got = got[:-1]
+        if got != want:
+            d = next((i for i in range(min(len(got), len(want))) if got[i] != want[i]), min(len(got), len(want)))
+            return 'serialised text does not denote the GraphInfo value: line %d is %r, expected %r' % (
+                d + 1, got[d] if d < len(got) else None, want[d] if d < len(want) else None)
     if c.obs.get('GS') != '1':
         return 'serialise/deserialise did not yield an equal value (GS=%s)' % c.obs.get('GS')
     if parse_edges(c.obs.get('GSE', '-')) != e:
